@@ -60,22 +60,14 @@ def makeSymbolic (lower : Bool) (syms : Syms) (a addrLen : Nat) (pfx : Option St
     | none => (String.ofList (symbolicHex lower a addrLen) ++ (if lower then "h" else "H"), syms)
     | some p => (p ++ hexString lower a (addrLen * 2), syms.add (p ++ hexString lower a (addrLen * 2)) a)
 
-/-- the `while (Count > 0)` loop of `RetrieveData`: cut at 0x10000, continued at address 0 -/
-def retrieveDataF (img : Image) (lower : Bool) : Nat → Nat → Nat → Option (List Nat) × List String
-  | 0, _, _ => (some [], [])
-  | fuel + 1, a, count =>
-    if count = 0 then (some [], []) else
-    let trans := if a ≤ 0x10000 then min count (0x10000 - a) else count
-    match retrieve img a trans with
-    | none => (none, ["cannot retrieve code @ 0x" ++ hexString lower a 0])
-    | some bs =>
-      match retrieveDataF img lower fuel ((a + trans) % 0x10000) (count - trans) with
-      | (some rest, e) => (some (bs.map UInt8.toNat ++ rest), e)
-      | (none, e) => (none, e)
-
-/-- `RetrieveData(Address, buf, Count)` -/
+/-- `RetrieveData(Address, buf, Count)` (since the repair 29b7faa of deco87c800.c): the address space ends at
+$FFFF, a request that reaches beyond it (`Address + Count > 0x10000`) fails like one that `RetrieveCodeFromChunkList` cannot
+answer - nothing is fetched from address 0 any more.  One message line on failure, with the first address of the request. -/
 def retrieveData (img : Image) (lower : Bool) (a count : Nat) : Option (List Nat) × List String :=
-  retrieveDataF img lower (count + 2) a count
+  if a + count > 0x10000 then (none, ["cannot retrieve code @ 0x" ++ hexString lower a 0]) else
+  match retrieve img a count with
+  | none => (none, ["cannot retrieve code @ 0x" ++ hexString lower a 0])
+  | some bs => (some (bs.map UInt8.toNat), [])
 
 /-! ## forms -/
 
